@@ -7,8 +7,12 @@
    [interest] (int(debt * debt_interest)) are universally quantified: the
    metabolic state only gates consume, and the theorems hold whatever it is.
    [good s] = capacities and debt limit >= 0, and [inv s]:
-     0 <= atp, gtp, nadh;  0 <= debt <= max_debt + accrued;  0 <= accrued
-   where [accrued] is the interest added to the debt so far ("interest aside").
+     0 <= atp, gtp, nadh;  0 <= debt <= max_debt + owed;  0 <= owed <= accrued
+   where [owed] is the interest still outstanding ("interest aside": it grows by
+   every interest charge and a debt payment p leaves max 0 (owed - p)) and
+   [accrued] is all the interest ever charged.  So once the interest has been
+   paid back the debt is within max_debt again, and (c04_borrow_within_limit) a
+   consume never lifts the debt above max_debt, whatever interest is outstanding.
    [op_nonneg] = every cost / amount argument is >= 0. *)
 From Coq Require Import ZArith List Bool.
 From Verif Require Import C04.Model C04.Proofs.
@@ -34,6 +38,43 @@ Theorem c04_inv_from_configurations :
     Forall (fun x => Forall inv (fst x)) (run classify interest false (map init_store cfgs) ops).
 Proof. exact inv_from_configs. Qed.
 Print Assumptions c04_inv_from_configurations.
+
+(* The code only borrows within the limit: in ANY state (no hypothesis), a
+   consume either leaves the debt alone, or it reports success, raises the
+   debt, and the new debt is <= max_debt — outstanding interest never buys
+   extra credit.  (A failed consume never changes the debt: c04_exact_charge.) *)
+Theorem c04_borrow_within_limit :
+  forall classify interest sys i s cost t allow prio,
+    nth_error sys i = Some s ->
+    let sys' := fst (step classify interest false sys (Local i (Consume cost t allow prio))) in
+    let r := snd (step classify interest false sys (Local i (Consume cost t allow prio))) in
+    exists s', nth_error sys' i = Some s' /\ max_debt s' = max_debt s /\
+      (debt s' = debt s \/
+       (r = RBool true /\ debt s < debt s' /\ debt s < max_debt s /\ debt s' <= max_debt s)).
+Proof. exact borrow_step_spec. Qed.
+Print Assumptions c04_borrow_within_limit.
+
+(* Without regeneration, reset or incoming transfers on store i, the total
+   principal it borrows (sum of the debt increases of its consumes) over any
+   history is at most the part of the limit not already used by principal ... *)
+Theorem c04_total_borrowed_bounded :
+  forall classify interest, interest_nonneg interest ->
+  forall i ops sys s,
+    Forall good sys -> Forall op_nonneg ops -> Forall (no_inflow i) ops ->
+    nth_error sys i = Some s ->
+    0 <= borrowed_on classify interest false i sys ops <= Z.max 0 (max_debt s - (debt s - owed s)).
+Proof. exact borrowed_bounded. Qed.
+Print Assumptions c04_total_borrowed_bounded.
+
+(* ... which for a freshly constructed store is max_debt *)
+Theorem c04_total_borrowed_bounded_from_configurations :
+  forall classify interest, interest_nonneg interest ->
+  forall cfgs ops i b g n md rn rd,
+    Forall cfg_ok cfgs -> Forall op_nonneg ops -> Forall (no_inflow i) ops ->
+    nth_error cfgs i = Some (b, g, n, md, rn, rd) ->
+    0 <= borrowed_on classify interest false i (map init_store cfgs) ops <= md.
+Proof. exact borrowed_bounded_from_configs. Qed.
+Print Assumptions c04_total_borrowed_bounded_from_configurations.
 
 (* A spend that reports success removes exactly its cost from the store's net
    worth (and adds it to total_consumed); a spend that reports failure leaves
@@ -100,7 +141,7 @@ Theorem c04_total_spend_bounded :
     Forall good sys -> Forall op_nonneg ops -> Forall (no_inflow i) ops ->
     nth_error sys i = Some s ->
     spent_on classify interest false i sys ops
-      <= atp s + gtp s + nadh s + max_debt s + accrued s - debt s.
+      <= atp s + gtp s + nadh s + max_debt s + owed s - debt s.
 Proof. exact spend_bounded. Qed.
 Print Assumptions c04_total_spend_bounded.
 
@@ -112,7 +153,7 @@ Theorem c04_positive_cost_loop_halts :
     Forall good sys -> Forall op_nonneg ops -> Forall (no_inflow i) ops ->
     nth_error sys i = Some s ->
     paid_steps classify interest false i sys ops
-      <= atp s + gtp s + nadh s + max_debt s + accrued s - debt s.
+      <= atp s + gtp s + nadh s + max_debt s + owed s - debt s.
 Proof. exact paid_bounded. Qed.
 Print Assumptions c04_positive_cost_loop_halts.
 
